@@ -30,11 +30,11 @@ MCProtTagsOf == [p \in Peers |-> IF p \in Prot2 THEN {"x", "y"} ELSE IF p \in Pr
 \*          trim in progress <<on, candidates, stale, target, foreign steps>>,
 \*          decaying tag <<decay function, bump function, closed>> >>
 St == << [p \in Peers |-> <<kind[p], cs[p], tg[p], val[p], age[p], prot[p], dec[p]>>], count, phase, dph,
-         <<tr.on, tr.c, tr.s, tr.n, tr.b>>, <<dcfg.d, dcfg.b, dcfg.closed>> >>
+         <<tr.on, tr.c, tr.s, tr.n, tr.b, tr.u>>, <<dcfg.d, dcfg.b, dcfg.closed>> >>
 EmitEdge == PrintT(<<"VFEDGE", ToJson([s |-> St, op |-> op', t |-> St'])>>)
 \* the instance's parameters, printed once so that the driver hands the harness exactly what TLC used
 Conf == [low |-> Low, high |-> High, grace |-> Grace, maxage |-> MaxAge, silence |-> Silence,
-         decaymax |-> DecayMax, decayevery |-> DecayEvery, split |-> Split,
+         maxval |-> MaxVal, decaymax |-> DecayMax, decayevery |-> DecayEvery, split |-> Split,
          peers |-> Peers, tags |-> Tags, prot |-> MCProtTagsOf,
          conns |-> [c \in Conns |-> [p |-> MCConnPeer[c], inb |-> MCConnIn[c], st |-> MCConnStreams[c]]]]
 MCInit == Init /\ PrintT(<<"VFINIT", ToJson(St)>>) /\ PrintT(<<"VFCONF", ToJson(Conf)>>)
